@@ -4,7 +4,7 @@
    representable (Fuel); the theorems say neither happens. *)
 From Coq Require Import List ZArith.
 From RtoscV Require Import Osc.OscModel Osc.OscEncProofs Osc.OscReadProofs Osc.OscLenProofs
-  Osc.OscTotalProofs Osc.OscValidProofs Osc.OscRegress.
+  Osc.OscTotalProofs Osc.OscValidProofs Osc.OscDecodeProofs Osc.OscRegress.
 Import ListNotations.
 Local Open Scope Z_scope.
 
@@ -47,15 +47,23 @@ Theorem C07_valid_safe : forall m,
                   type_at m idx = Ok t /\ argument m idx = Ok v.
 Proof. exact valid_accessors_safe. Qed.
 
-(* "... and returns what an independent OSC decoder returns" - PARTIAL.
-   Proved: by C07_valid_safe the by-index accessors and the count agree with
-   the iterator on every accepted buffer (one decoding, however it is read),
-   and on every canonical encoding (the image of the OSC 1.0 encoder) that
-   decoding is the inverse of the encoder: the original types and values.
-   Not proved: equality with a separately written reference decoder on
-   accepted NON-canonical buffers (non-NUL padding, unknown tags); there the
-   independent Python decoder of the correspondence run is the oracle. *)
-Theorem C07_valid_decodes_partial : forall a tags args rest,
+(* "... and returns what an independent OSC decoder returns": [ref_decode]
+   (Osc/OscModel.v) is a decoder written from the OSC 1.0 text - OSC-strings
+   at 4-aligned positions occupying |s|+1 bytes rounded up to a multiple of 4,
+   a type tag string starting with ',', arguments in tag order - with none of
+   the code's cursor arithmetic.  On EVERY accepted buffer it succeeds, and the
+   accessors return exactly its type tags and its list of (tag, value). *)
+Theorem C07_valid_decodes : forall m,
+  bytes_ok m -> zlen m < 134217728 ->
+  valid_message_p m (zlen m) = Ok true ->
+  exists addr tags l s,
+    ref_decode m = Ok (addr, tags, l) /\
+    arg_string m = Ok s /\ cstr_at m s = Ok tags /\ itr_all m = Ok l.
+Proof. exact valid_decodes. Qed.
+
+(* and on the encoder's image that decoding is the inverse of the OSC 1.0
+   encoder: the original types and values *)
+Theorem C07_canonical_decodes : forall a tags args rest,
   msg_wf a tags args ->
   itr_all (enc_spec a tags args ++ rest) = Ok (dec_spec tags args (args_off a tags)) /\
   narguments (enc_spec a tags args ++ rest) = Ok (count_nonbracket tags) /\
